@@ -732,6 +732,8 @@ class Exec:
                 return z3.SignExt(w - v.size(), v) if is_signed(src_t) else z3.ZeroExt(w - v.size(), v)
             if kind.startswith(('PointerCoercion', 'PtrToPtr', 'Transmute', 'PointerExposeProvenance', 'PointerWithExposedProvenance', 'FnPtrToPtr')):
                 return v
+            if isinstance(v, (Sym, Agg, Ptr)):
+                return v          # casts between non-scalar types (Subtype, closure coercions, ..) keep the value's identity
             return self.fresh(f'cast({vname(v)})', ty)
         if k == 'repeat':
             v = self.operand(p, frame, rv[1])
